@@ -154,8 +154,21 @@ def run(ctx):
     rng = ctx.rng
     jobs, metas = [], []
     npairs, ntriples = (120, 70) if ctx.tier == 'quick' else (3000, 1500)
-    for _ in range(npairs):
+    for it in range(npairs):
         a, b, kinds = gen_nb.pair(rng)
+        if it % 12 == 0 and a['cells']:
+            # value shapes the two patchers must agree on: an inserted list item that is itself a list / empty list / object
+            a, b = copy.deepcopy(a), copy.deepcopy(a)
+            c = rng.choice(b['cells'])
+            rows = [[1, 2], [3, 4], [], [[5]], {'k': [6]}]
+            ai = a['cells'][b['cells'].index(c)]
+            ai['metadata']['grid'] = [rows[0], rows[1]]
+            g = [rows[0], rows[1]]
+            g.insert(rng.randrange(3), copy.deepcopy(rng.choice(rows)))
+            if rng.random() < 0.5:
+                g.insert(rng.randrange(len(g) + 1), copy.deepcopy(rng.choice(rows)))
+            c['metadata']['grid'] = g
+            kinds = ['list-valued-insert']
         if rng.random() < 0.15 and a['cells']:
             c = rng.choice(a['cells'])
             c['source'] = c['source'] + '\nemoji \U0001F600 line\nx'
